@@ -180,7 +180,7 @@ func lawsOf(v interface{}, final bool) aLaws {
 			l.Detail += "; Package().SourceAddr(SubPath()) differs"
 		}
 	case sourceaddrs.RegistrySource:
-		ver := versions.MustParseVersion("1.2.3-beta.1")
+		ver := versions.MustParseVersion("1.2.3-beta.1+build.5")
 		f := x.Versioned(ver)
 		f2, err := sourceaddrs.ParseFinalSource(f.String())
 		if err != nil || f2 != sourceaddrs.FinalSource(f) || f.Unversioned() != x {
